@@ -41,6 +41,20 @@
 (*   HookNeedsTmLock  alert node start takes tm.mu (registerDeleteHook)       *)
 (*   UdfStopAborts    stopUDF aborts the UDF (original) / does nothing        *)
 (*                                                                            *)
+(* The fork edge.  The task's source edge is the first edge of the pipeline   *)
+(* and the TaskMaster's forking goroutine is its sender process: forkPoint    *)
+(* looks the edge up in tm.forks and calls Collect on it, both under          *)
+(* tm.mu.RLock - Collect blocks while the edge is full, so a StopTask /       *)
+(* DeleteTask (tm.mu.Lock) waits for the Collect in progress, and delFork     *)
+(* closes the edge only when no sender is inside it.  What the code           *)
+(* guarantees for StopTask/DeleteTask is therefore: every point whose Collect *)
+(* completed is the task's and is processed (accepted, NoAcceptedLoss) - that *)
+(* includes the one Collect the stop had to wait for; points still in the     *)
+(* ingest edge are not the task's any more (ForkCollect after sdel drops      *)
+(* them); nobody ever sends on the closed edge (NoCollectOnClosed: a send on  *)
+(* a closed channel kills the process).  ForkHoldsRLock = FALSE models a      *)
+(* forkPoint that copies the edge under the lock and collects without it.     *)
+(*                                                                            *)
 (* Waiters.  services/task_store runs `et.Wait()` in a goroutine for every    *)
 (* task it starts, so a stop ALWAYS races with a concurrent waiter.           *)
 (* ExecutingTask.Wait walks the nodes in reverse order calling node.Wait and  *)
@@ -62,6 +76,7 @@ CONSTANTS
     AllowFail,       \* BOOLEAN: one node may return an error at any time
     MaxN, MaxE,      \* array sizes (>= nodes / edges of every topology)
     InfluxStopF, ReaderDone, AlertCloseOnErr, HookNeedsTmLock, UdfStopAborts,
+    ForkHoldsRLock,  \* forkPoint keeps tm.mu.RLock across edge.Collect (the code)
     NWaiters,        \* goroutines blocked in ExecutingTask.Wait() (task_store has one per task)
     WaitHoldsMu      \* node.Wait holds finishedMu while it receives from errCh (the code)
 
@@ -119,7 +134,7 @@ Init ==
     /\ topo \in Topos
     /\ kind \in StopKinds
     /\ next = 1 /\ wp = EdgeNew /\ wclosed = FALSE
-    /\ fk = [at |-> "idle", m |-> 0]
+    /\ fk = [at |-> "idle", m |-> 0, e |-> FALSE]
     /\ lock = "free" /\ sdel = FALSE
     /\ E = [e \in 1..MaxE |-> EdgeNew]
     /\ pc = [n \in 1..MaxN |->
@@ -160,31 +175,36 @@ Write ==
 ForkTake ==
     /\ fk.at = "idle"
     /\ \/ /\ CanEmitMsg(wp)
-          /\ fk' = [at |-> "want", m |-> EmitMsg(wp)] /\ wp' = AfterEmit(wp)
+          /\ fk' = [at |-> "want", m |-> EmitMsg(wp), e |-> FALSE] /\ wp' = AfterEmit(wp)
        \/ /\ CanEmitEOF(wp) /\ ~CanEmitMsg(wp)
-          /\ fk' = [at |-> "done", m |-> 0] /\ wp' = wp
+          /\ fk' = [at |-> "done", m |-> 0, e |-> FALSE] /\ wp' = wp
     /\ UNCHANGED <<topo, kind, next, wclosed, lock, sdel, E, pc, cur, fi, nerr, wb, hq, rd, mclosed, udone,
                    sp, accepted, delivered, refused, dropped, failed, panicked>>
 \* ... forkPoint: tm.mu.RLock (waits while a stop holds tm.mu) ...
 ForkRLock ==
     /\ fk.at = "want" /\ lock = "free"
-    /\ fk' = [fk EXCEPT !.at = "in"]
+    /\ fk' = [fk EXCEPT !.at = "in", !.e = (fk.m > 0 /\ ~sdel)]     \* the edge found in tm.forks, if any
     /\ UNCHANGED <<topo, kind, next, wp, wclosed, lock, sdel, E, pc, cur, fi, nerr, wb, hq, rd, mclosed, udone,
                    sp, accepted, delivered, refused, dropped, failed, panicked>>
-\* ... Collect into the task's edge while holding the read lock (blocks while the edge is full);
-\* points of another db/rp (loopback output, negative) and points after delFork are not for this task.
+\* ... Collect into the task's edge (blocks while the edge is full) - while holding the read lock in the code,
+\* so that delFork cannot close the edge under the sender; points of another db/rp (loopback output, negative)
+\* and points looked up after delFork are not for this task.
 ForkCollect ==
     /\ fk.at = "in"
-    /\ \/ /\ (fk.m < 0 \/ sdel)
-          /\ UNCHANGED <<E, accepted>>
-       \/ /\ fk.m > 0 /\ ~sdel /\ CanBuffer(E[1], K)
+    /\ \/ /\ ~fk.e
+          /\ UNCHANGED <<E, accepted, panicked>>
+       \/ /\ fk.e /\ CanBuffer(E[1], K)
           /\ E' = [E EXCEPT ![1] = Buffered(@, fk.m)]
           /\ accepted' = accepted \cup {fk.m}
-       \/ /\ fk.m > 0 /\ ~sdel /\ CollectAborts(E[1])      \* `_ = edge.Collect(p)`
+          /\ UNCHANGED panicked
+       \/ /\ fk.e /\ CollectAborts(E[1])      \* `_ = edge.Collect(p)`
+          /\ UNCHANGED <<E, accepted, panicked>>
+       \/ /\ fk.e /\ CollectPanics(E[1])      \* send on a closed channel: the process dies
+          /\ panicked' = TRUE
           /\ UNCHANGED <<E, accepted>>
-    /\ fk' = [at |-> "idle", m |-> 0]
+    /\ fk' = [at |-> "idle", m |-> 0, e |-> FALSE]
     /\ UNCHANGED <<topo, kind, next, wp, wclosed, lock, sdel, pc, cur, fi, nerr, wb, hq, rd, mclosed, udone,
-                   sp, delivered, refused, dropped, failed, panicked>>
+                   sp, delivered, refused, dropped, failed>>
 
 -----------------------------------------------------------------------------
 (* Node goroutines                                                            *)
@@ -430,7 +450,7 @@ StopFState(i) == CASE NK(i) = "influx" /\ InfluxStopF -> "fl1"
 \* StopTask: tm.mu.Lock (waits for a forkPoint in progress), delFork = close the source edge
 StopTaskBegin ==
     /\ sp.at = "idle" /\ kind = "task"
-    /\ lock = "free" /\ fk.at # "in"
+    /\ lock = "free" /\ (ForkHoldsRLock => fk.at # "in")
     /\ lock' = "S" /\ sdel' = TRUE
     /\ E' = [E EXCEPT ![1] = Closed(@)]
     /\ sp' = [at |-> StopFState(1), i |-> 1]
